@@ -622,3 +622,23 @@ _C16 = [
 for _sp in _C16:
     _sp.update(module='boltons.tbutils', kind='function', translator='py2lean_c16', gen_file='tbutils_c16')
 SPECS['C16'] = _C16
+# C16, second group: ExceptionInfo.  `tb_info.frames`: the attribute path `self.tb_info.frames` (a parameter
+# `self_tb_info_frames`); `self_classes`: the declared class of the sub-object, whose translated methods may be called;
+# `region`: the statements of from_exc_info that compute the display name (first assignment of `type_str` up to the
+# assignment of `val_str`), over `exc_type: ExcType` (`__qualname__: str`, `__module__`: a str or something else).
+_C16B = [
+    {'qualname': 'ExceptionInfo.get_formatted_exception_only', 'lean_name': 'ExceptionInfo.get_formatted_exception_only',
+     'method': True, 'self_attrs': {'exc_type': 'Str', 'exc_msg': 'Str'}, 'params': {}, 'result': 'Str',
+     'tie_theorem': 'C16.src_ei_exc_only_eq_model'},
+    {'qualname': 'ExceptionInfo.get_formatted', 'lean_name': 'ExceptionInfo.get_formatted', 'method': True,
+     'self_attrs': {'exc_type': 'Str', 'exc_msg': 'Str', 'tb_info.frames': 'List Callpoint'},
+     'self_classes': {'tb_info': 'TracebackInfo'}, 'params': {}, 'result': 'Str',
+     'tie_theorem': 'C16.src_ei_get_formatted_eq_model'},
+    {'qualname': 'ExceptionInfo.from_exc_info', 'lean_name': 'ExceptionInfo.type_str',
+     'region': {'start': 'type_str', 'stop': 'val_str', 'result': 'type_str'},
+     'locals': {'type_mod': 'Option Str'}, 'params': {'exc_type': 'ExcType'}, 'result': 'Str',
+     'tie_theorem': 'C16.src_type_str_eq_model'},
+]
+for _sp in _C16B:
+    _sp.update(module='boltons.tbutils', kind='function', translator='py2lean_c16', gen_file='tbutils_c16')
+_C16.extend(_C16B)
